@@ -15,6 +15,7 @@ class Cl:
         self.rnd = rnd
         self.vars = []     # list of sorts
         self.anon = 0
+        self.ops = False
 
     def var(self, sort, fresh_p=0.3):
         cands = [i for i, so in enumerate(self.vars) if so == sort]
@@ -39,6 +40,11 @@ class Cl:
 
     def t1(self):
         r = self.rnd.random()
+        if self.ops and r < 0.06:
+            # operator terms: ordinary compound terms written with the grammar's BINOP/UNOP syntax
+            if self.rnd.random() < 0.7:
+                return C(self.rnd.choice(["<", ">", "==", "=<", ">=", "\\=="]), self.t0(), self.t0())
+            return C(self.rnd.choice("+-"), self.t0())
         if r < 0.35:
             return self.t0()
         if r < 0.5:
@@ -82,6 +88,9 @@ def goal(c, depth, cutok, frag):
                 return call(C("=", c.t1(), c.t1()))
             if k < 0.60:
                 return call(C("\\=", c.t1(), c.t1()))
+            if k < 0.62 and c.ops:
+                # a comparison operator as a goal: an ordinary call of a predicate nobody defines
+                return call(C(rnd.choice(["<", ">", "==", ">="]), c.t0(), c.t0()))
             if k < 0.64:
                 return TRUE
             if k < 0.68:
@@ -132,6 +141,7 @@ def fix_plain_or(b):
 
 def mk_clause(rnd, name, fact, frag, depth=3):
     c = Cl(rnd)
+    c.ops = "ops" in frag
     h = atomcall(c, name)
     body = TRUE if fact else goal(c, rnd.randint(1, depth), True, frag)
     cl = {"h": h, "body": body, "nv": 0}
@@ -149,6 +159,7 @@ def program(rnd, frag, nclauses=3, depth=3):
         if cls:
             defs["%s/%d" % (name, len(SIG[name]))] = cls
     c = Cl(rnd)
+    c.ops = "ops" in frag
     c.vars = [1, 1]
     body = goal(c, depth, True, frag)
     cl = {"h": C("top", V(0), V(1)), "body": body}
